@@ -23,16 +23,30 @@ def build(repo, verif, workdir, log):
     src = os.path.join(verif, "twin")
     dst = os.path.join(base, "twin")
     rcopy = os.path.join(base, "repo")
-    for d in (dst, rcopy):
-        if os.path.exists(d):
-            shutil.rmtree(d)
+    if os.path.exists(dst):
+        shutil.rmtree(dst)
     shutil.copytree(src, dst, ignore=shutil.ignore_patterns("target", "Cargo.toml.in"))
     repo = os.path.abspath(repo)
-    os.makedirs(rcopy)
-    shutil.copytree(os.path.join(repo, "src"), os.path.join(rcopy, "src"))
     toml = open(os.path.join(repo, "Cargo.toml")).read()
     toml = re.sub(r"\[\[bench\]\][^\[]*", "", toml)
-    open(os.path.join(rcopy, "Cargo.toml"), "w").write(toml)
+    # cargo decides freshness by mtime: a tree whose files are OLDER than the last build (a worktree of an earlier
+    # commit, a restored backup) would silently reuse the previous binary.  The copy is therefore keyed by content:
+    # unchanged content keeps the copy (and the build), changed content is written with fresh mtimes.
+    import hashlib
+    h = hashlib.sha256(toml.encode())
+    for root, _, files in sorted(os.walk(os.path.join(repo, "src"))):
+        for f in sorted(files):
+            h.update(os.path.relpath(os.path.join(root, f), repo).encode())
+            h.update(open(os.path.join(root, f), "rb").read())
+    digest = h.hexdigest()
+    stamp = os.path.join(base, ".srchash")
+    if not (os.path.exists(rcopy) and os.path.exists(stamp) and open(stamp).read() == digest):
+        if os.path.exists(rcopy):
+            shutil.rmtree(rcopy)
+        os.makedirs(rcopy)
+        shutil.copytree(os.path.join(repo, "src"), os.path.join(rcopy, "src"), copy_function=shutil.copyfile)
+        open(os.path.join(rcopy, "Cargo.toml"), "w").write(toml)
+        open(stamp, "w").write(digest)
     open(os.path.join(dst, "Cargo.toml"), "w").write(open(os.path.join(src, "Cargo.toml.in")).read().replace("@REPO@", rcopy))
     m = os.path.join(dst, "src", "main.rs")
     txt = open(m).read().replace("@REPO@", rcopy)
